@@ -1,6 +1,7 @@
 package harness
 
 import (
+	"k8s.io/apimachinery/pkg/api/resource"
 	"context"
 	"fmt"
 	"math"
@@ -205,6 +206,13 @@ func drawC19a(t *rapid.T) *gen.SchedWorld {
 	k.FriendlyPools, k.EasyPods = true, true
 	w := gen.World(t, k)
 	w.Options.ReservedCapacity = false
+	// some pools run out of limits during (or before) the pass: the search must go on to the lighter pools, for every
+	// degree of parallelism
+	for i, np := range w.Pools {
+		if rapid.IntRange(0, 2).Draw(t, fmt.Sprintf("c19_limited%d", i)) == 0 {
+			np.Spec.Limits = v1.Limits{corev1.ResourceCPU: resource.MustParse(rapid.SampledFrom([]string{"0", "1", "2", "4", "8"}).Draw(t, fmt.Sprintf("c19_limit%d", i)))}
+		}
+	}
 	return w
 }
 
@@ -365,7 +373,8 @@ func execC19a(s *gen.SchedWorld, c *ev.Ctx) {
 			for _, y := range b.Pools {
 				if f, how := b.poolFeasible(y, p); f {
 					feasibleCount++
-					if weightOf(y) > weightOf(x) {
+					// (a heavier pool with limits may legitimately be exhausted)
+					if weightOf(y) > weightOf(x) && len(y.Spec.Limits) == 0 {
 						ok = false
 						witness = fmt.Sprintf("pod %s fits pool %s (weight %d) as %s", p.Name, y.Name, weightOf(y), how)
 					}
@@ -383,6 +392,33 @@ func execC19a(s *gen.SchedWorld, c *ev.Ctx) {
 			c.Violate("weight:lighter-pool-used", "NodeClaim opened in pool %s (weight %d) for pods %s although a heavier pool can host each of them, e.g. %s", x.Name, weightOf(x), shortPods(nc.Pods), witness)
 		}
 	}
+	// a pod left unassigned although a pool without limits could host it on a node of its own
+	errPods := make([]*corev1.Pod, 0, len(res.PodErrors))
+	for p := range res.PodErrors {
+		errPods = append(errPods, p)
+	}
+	sort.Slice(errPods, func(i, j int) bool { return errPods[i].Name < errPods[j].Name })
+	for _, ep := range b.originals(errPods) {
+		if ep.Spec.NodeName != "" {
+			continue
+		}
+		names := make([]string, 0, len(b.Pools))
+		for n := range b.Pools {
+			names = append(names, n)
+		}
+		sort.Strings(names)
+		for _, n := range names {
+			y := b.Pools[n]
+			if len(y.Spec.Limits) > 0 {
+				c.Class("errored_with_limited_pool")
+				continue
+			}
+			if f, how := b.poolFeasible(y, ep); f {
+				c.Violate("weight:unassigned-although-pool-feasible", "pod %s was left unassigned although pool %s (weight %d, no limits) can host it as %s", ep.Name, y.Name, weightOf(y), how)
+				break
+			}
+		}
+	}
 	c.ClassIf(multiFeasible, "multi_feasible")
 	c.NTIf(multiFeasible)
 	c.Sample(map[string]any{"pools": len(b.Pools), "claims": len(res.NewNodeClaims), "parallelism": s.Options.CPURequests / 1000})
@@ -390,7 +426,7 @@ func execC19a(s *gen.SchedWorld, c *ev.Ctx) {
 
 var propC19a = ev.Prop[gen.SchedWorld]{
 	ID: "C19", Test: "TestC19a",
-	Rule: "rapid draws 2-4 ready NodePools with weights (ties, nil), differing requirements / taints / labels over one catalog, pods without inter-pod constraints, preferences, OR-ed terms, minValues, limits or reservations, parallelism 1-8; Provisioner.Schedule runs; " +
+	Rule: "rapid draws 2-4 ready NodePools with weights (ties, nil), differing requirements / taints / labels over one catalog, pods without inter-pod constraints, preferences, OR-ed terms, minValues or reservations, a third of the pools with a small cpu limit (so that heavier pools run out during the pass), parallelism 1-8; Provisioner.Schedule runs; " +
 		"oracle: for every new NodeClaim of pool X some pod on it has no feasible heavier pool (feasible = some type/offering/label choice of the pool admits pod + daemons under the C01 admission oracle, all pool taints incl. PreferNoSchedule tolerated); non-trivial = some pod had >=2 feasible pools",
 	Assumptions: []string{"preferring a lighter pool over violating a PreferNoSchedule taint or over relaxing to a later OR-ed term is documented behaviour, so such pods are not generated / judged"},
 	Draw:        drawC19a, Exec: execC19a, ReplayTries: 10,
